@@ -16,8 +16,10 @@ import (
 	"encoding/binary"
 	"errors"
 	"fmt"
+	"log"
 	"net"
 	"net/http"
+	"regexp"
 	"runtime"
 	"runtime/debug"
 	"strings"
@@ -49,6 +51,7 @@ type upResult struct {
 	sub   string
 	err   error
 	panic any
+	stack string
 }
 
 type env struct {
@@ -59,6 +62,38 @@ type env struct {
 	upCfg   atomic.Pointer[upConfig]
 	upCh    chan upResult
 	clients chan *centrifuge.Client
+	logMu   sync.Mutex
+	panics  []string // "http: panic serving" reports of the http.Server
+}
+
+func (e *env) Write(p []byte) (int, error) {
+	if strings.Contains(string(p), "panic serving") {
+		e.logMu.Lock()
+		e.panics = append(e.panics, string(p))
+		e.logMu.Unlock()
+	}
+	return len(p), nil
+}
+
+// takePanic returns (and forgets) a handler panic reported by the http.Server.
+func (e *env) takePanic() string {
+	e.logMu.Lock()
+	defer e.logMu.Unlock()
+	if len(e.panics) == 0 {
+		return ""
+	}
+	p := e.panics[0]
+	e.panics = nil
+	return p
+}
+
+var reFrame = regexp.MustCompile(`centrifuge(?:/internal/websocket)?\.(\(?[*A-Za-z]+\)?\.?[A-Za-z]+)\(`)
+
+func panicSite(report string) string {
+	if m := reFrame.FindStringSubmatch(report); m != nil {
+		return strings.NewReplacer("(", "", ")", "", "*", "").Replace(m[1])
+	}
+	return "unknown"
 }
 
 func newEnv() (*env, error) {
@@ -66,6 +101,8 @@ func newEnv() (*env, error) {
 	node, err := centrifuge.New(centrifuge.Config{
 		LogLevel: centrifuge.LogLevelNone,
 		Metrics:  centrifuge.MetricsConfig{RegistererGatherer: e.reg},
+		// no server-initiated disconnects other than the ones the trials ask for, however slow the machine is
+		ClientStaleCloseDelay: 6 * time.Hour,
 	})
 	if err != nil {
 		return nil, err
@@ -92,18 +129,20 @@ func newEnv() (*env, error) {
 			defer func() {
 				if p := recover(); p != nil {
 					res.panic = p
+					res.stack = string(debug.Stack())
 				}
 			}()
 			res.conn, res.sub, res.err = up.Upgrade(w, r, nil)
 		}()
 		e.upCh <- res
 		if res.panic != nil {
-			panic(http.ErrAbortHandler)
+			panic(res.panic)
 		}
 	})
-	mux.Handle("/connection/websocket", centrifuge.NewWebsocketHandler(node, centrifuge.WebsocketConfig{}))
-	mux.Handle("/connection/websocket-z", centrifuge.NewWebsocketHandler(node, centrifuge.WebsocketConfig{Compression: true}))
-	e.srv = &http.Server{Handler: mux}
+	noPing := centrifuge.PingPongConfig{PingInterval: -1, PongTimeout: -1} // the raw client does not answer application-level pings
+	mux.Handle("/connection/websocket", centrifuge.NewWebsocketHandler(node, centrifuge.WebsocketConfig{PingPongConfig: noPing}))
+	mux.Handle("/connection/websocket-z", centrifuge.NewWebsocketHandler(node, centrifuge.WebsocketConfig{Compression: true, PingPongConfig: noPing}))
+	e.srv = &http.Server{Handler: mux, ErrorLog: log.New(e, "", 0)}
 	go func() { _ = e.srv.Serve(e.ln) }()
 	return e, nil
 }
@@ -458,8 +497,27 @@ func handshakeTrial(c *kit.Case, e *env, q *hsReq) (*verdict, string) {
 			// request never reached the handler (rejected by net/http)
 		}
 	}
-	if ur != nil && ur.panic != nil {
-		return &verdict{"upgrade-panics", fmt.Sprintf("Upgrader.Upgrade panicked: %v", ur.panic)}, ""
+	if rerr != nil || (ur != nil && ur.panic != nil) {
+		// a handler panic is recovered by net/http (connection dropped, stack logged)
+		for i := 0; i < 200; i++ {
+			if p := e.takePanic(); p != "" {
+				first := p
+				if j := strings.Index(first, "\n"); j > 0 {
+					first = first[:j]
+				}
+				site := panicSite(p)
+				if ur != nil && ur.stack != "" {
+					site = panicSite(ur.stack)
+				}
+				return &verdict{"upgrade-panics@" + site, fmt.Sprintf("the upgrade handler panicked on this request (%v): %s", q.Labels, first)}, ""
+			}
+			if ur == nil || ur.panic == nil {
+				if i > 20 {
+					break
+				}
+			}
+			time.Sleep(time.Millisecond)
+		}
 	}
 	accepted := rerr == nil && resp.StatusCode == 101
 	valid := len(q.Bad) == 0
@@ -1102,8 +1160,10 @@ func receivedCloseTrial(c *kit.Case, e *env) (*verdict, string, map[string]any) 
 			}
 			c.Count("race_outgoing_first", 1)
 		case rcode == y && incoming:
-			if sent != y {
-				return &verdict{"recorded-close-code-inconsistent", fmt.Sprintf("CloseCode() = (%d, incoming) but the server's close frame carries %d instead of the echo", y, sent)}, "", det
+			// the incoming frame was handled first; the server's single close frame is
+			// either the echo or its own close, whichever got the write lock
+			if sent != y && sent != x {
+				return &verdict{"server-close-frame-differs", fmt.Sprintf("server close frame carries %d, expected %d (own) or %d (echo)", sent, x, y)}, "", det
 			}
 			c.Count("race_incoming_first", 1)
 		default:
